@@ -18,6 +18,8 @@ import threading
 import traceback
 from pathlib import Path
 
+import logging
+logging.disable(logging.CRITICAL)      # the library logs every rejected call
 HERE = os.path.dirname(os.path.abspath(__file__))
 sys.path.insert(0, HERE)
 import layout  # noqa: E402
@@ -322,11 +324,19 @@ class FaultPlan:
             if plan.hit("move", dst):
                 raise OSError(5, "injected I/O error", str(dst))
             return real_move(src, dst, *a, **k)
-        self.saved = {"open": real_open, "io_open": io.open, "remove": real_remove, "move": real_move}
+        real_makedirs = os.makedirs
+
+        def f_makedirs(path, *a, **k):
+            if plan.hit("makedirs", os.path.join(str(path), "x")):
+                raise OSError(5, "injected I/O error", str(path))
+            return real_makedirs(path, *a, **k)
+        self.saved = {"open": real_open, "io_open": io.open, "remove": real_remove, "move": real_move,
+                      "makedirs": real_makedirs}
         builtins.open = f_open
         io.open = f_open
         os.remove = f_remove
         _sh.move = f_move
+        os.makedirs = f_makedirs
 
     def uninstall(self):
         import builtins
@@ -335,6 +345,7 @@ class FaultPlan:
         io.open = self.saved["io_open"]
         os.remove = self.saved["remove"]
         _sh.move = self.saved["move"]
+        os.makedirs = self.saved["makedirs"]
 
 
 def o_fault_call(p, cfg):
@@ -354,6 +365,10 @@ def o_fault_call(p, cfg):
         store.store_object(None, tmp_input(root, content, "o.bin"))
     if sc.startswith("delete_object"):
         store.store_object(pid, tmp_input(root, content, "p.bin"))
+    if "already bound to the requested cid" in sc:
+        store.store_object(pid, tmp_input(root, content, "p.bin"))
+    if "bound to another cid" in sc:
+        store.store_object(pid, tmp_input(root, b"other earlier content", "p.bin"))
     before = lay.view()
     plan = FaultPlan(lay, p["prim"], p["target"], p.get("persistent", False))
     data = tmp_input(root, content, "d.bin")
@@ -386,6 +401,10 @@ def o_fault_call(p, cfg):
         ok = bound and after["P"][pid] == cid and pid in after["C"].get(cid, [])
         return (not ok), ("success reported with the whole effect" if ok else
                           "success reported without the whole effect")
+    if pid in before["P"] and (not bound or after["P"][pid] != before["P"][pid]
+                               or pid not in after["C"].get(before["P"][pid], [])):
+        return True, (f"{sc} failed with {out[1]} after {p['prim']}@{p['target']} and destroyed the "
+                      "pid's earlier binding (the roll-back untagged a binding this call did not create)")
     if bound and pid not in before["P"]:
         retry = outcome(store.tag_object, pid, cid) if sc.startswith("tag_object") else \
             outcome(store.store_object, pid, data)
@@ -621,6 +640,208 @@ def o_race_delete_all_metadata(p, cfg):
 ORACLES["race_delete_all_metadata"] = o_race_delete_all_metadata
 ORACLES["race_store_delete"] = o_race_store_delete
 ORACLES["race_tag_delete"] = o_race_tag_delete
+
+
+# ---------------------------------------------------------------------------------------------------
+# bounded search for a failing call sequence (used when a counter-model names a helper deep inside
+# the reference / object / metadata layer): an independent reference model of the property
+# statements is run next to the real store
+# ---------------------------------------------------------------------------------------------------
+class RefModel:
+    """What the property statements (C03, C04, C05, C06, C11) say the store must look like."""
+
+    def __init__(self, alg):
+        self.alg = alg
+        self.O, self.P, self.C, self.M = set(), {}, {}, {}
+
+    def cid(self, content):
+        return hashlib.new(self.alg, content).hexdigest()
+
+    def store(self, pid, content, size=None):
+        c = self.cid(content)
+        if size is not None and size != len(content):
+            return "NonMatchingObjSize"
+        self.O.add(c)
+        if pid is None:
+            return "ok"
+        if pid in self.P:
+            return "already-exists"
+        self.P[pid] = c
+        self.C.setdefault(c, [])
+        if pid not in self.C[c]:
+            self.C[c].append(pid)
+        return "ok"
+
+    def tag(self, pid, c):
+        if pid in self.P:
+            return "already-exists"
+        self.P[pid] = c
+        self.C.setdefault(c, [])
+        if pid not in self.C[c]:
+            self.C[c].append(pid)
+        return "ok"
+
+    def delete(self, pid):
+        if pid not in self.P:
+            return "PidRefsDoesNotExist"
+        c = self.P.pop(pid)
+        if c in self.C and pid in self.C[c]:
+            self.C[c].remove(pid)
+            if not self.C[c]:
+                del self.C[c]
+                self.O.discard(c)
+        for k in [k for k in self.M if k[0] == pid]:
+            del self.M[k]
+        return "ok"
+
+    def dii_wrong_size(self, c):
+        if c not in self.C:
+            self.O.discard(c)
+        return "NonMatchingObjSize"
+
+    def smeta(self, pid, fmt, doc):
+        self.M[(pid, fmt)] = doc
+        return "ok"
+
+    def dmeta(self, pid, fmt):
+        if fmt is None:
+            for k in [k for k in self.M if k[0] == pid]:
+                del self.M[k]
+        else:
+            self.M.pop((pid, fmt), None)
+        return "ok"
+
+
+def _classify(out):
+    if out[0] == "return":
+        return "ok"
+    if out[1] in ("HashStoreRefsAlreadyExists", "PidRefsAlreadyExistsError"):
+        return "already-exists"
+    return out[1]
+
+
+def _compare(model, lay, ns, pids):
+    v = lay.view()
+    if v["residue"]:
+        return f"temporary / marker files left: {v['residue'][:2]}"
+    for pid in pids:
+        bound = pid in v["P"]
+        if bound != (pid in model.P):
+            return f"pid {pid!r} bound={bound}, the call sequence implies {pid in model.P}"
+        if bound and v["P"][pid] != model.P[pid]:
+            return f"pid {pid!r} names {v['P'][pid][:10]}.., must name {model.P[pid][:10]}.."
+    if set(v["C"]) != set(model.C):
+        return f"cid reference lists exist for {sorted(c[:8] for c in v['C'])}, must be {sorted(c[:8] for c in model.C)}"
+    for c, lst in model.C.items():
+        if sorted(v["C"][c]) != sorted(lst):
+            return f"reference list of {c[:8]}.. is {v['C'][c]}, must be {lst}"
+        with open(lay.cid_ref(c), "r", encoding="utf8") as fh:
+            raw = fh.read()
+        if raw and not raw.endswith("\n"):
+            return (f"reference list of {c[:8]}.. is not one pid per newline-terminated line "
+                    f"(ends with {raw[-12:]!r})")
+    if set(v["O"]) != model.O:
+        return f"objects present {sorted(c[:8] for c in v['O'])}, must be {sorted(c[:8] for c in model.O)}"
+    want_m = {(lay.H(p), lay.H(p + (f if f is not None else ns))): d for (p, f), d in model.M.items()}
+    if v["M"] != want_m:
+        return f"metadata documents differ: {len(v['M'])} present, {len(want_m)} expected"
+    return None
+
+
+def o_model_sweep(p, cfg):
+    """All call sequences of length <= n over a small menu; after every call the real store must
+    equal what the property statements imply (independent reference model + layout)."""
+    import itertools
+    pids = p.get("pids", ["doi:10.1/ab", "ab", "doi:10.1/a"])
+    contents = [b"content-one", b"content-two"][:p.get("contents", 2)]
+    fmts = [None, "fmt-x"]
+    menu = []
+    for pid in pids:
+        for ci in range(len(contents)):
+            menu.append(("store", pid, ci))
+        menu.append(("delete", pid))
+        if not p.get("no_tag"):
+            for ci in range(len(contents)):
+                menu.append(("tag", pid, ci))
+    if len(contents) > 1:
+        menu.append(("store-nopid", 1))
+        menu.append(("dii", 1))
+    if p.get("metadata"):
+        for pid in pids[:2]:
+            for f in fmts:
+                menu.append(("smeta", pid, f))
+            menu.append(("dmeta", pid, None))
+    n = p.get("length", 3)
+    import time as _t
+    t0 = _t.time()
+    tried = 0
+    for seq in itertools.product(menu, repeat=n):
+        if _t.time() - t0 > p.get("budget_s", 75):
+            break
+        names = [s[0] for s in seq]
+        if p.get("focus") and not any(f in names for f in p["focus"]):
+            continue
+        if p.get("require_all") and not all(f in names for f in p["require_all"]):
+            continue
+        tried += 1
+        store, props, root = new_store(cfg)
+        lay = layout.Layout(props)
+        alg = layout.HASHLIB[props["store_algorithm"]]
+        model = RefModel(alg)
+        ns = props["store_metadata_namespace"]
+        om_cache = {}
+        try:
+            for i, step in enumerate(seq):
+                op = step[0]
+                if op == "store":
+                    out = outcome(store.store_object, step[1], tmp_input(root, contents[step[2]], f"s{i}.bin"))
+                    want = model.store(step[1], contents[step[2]])
+                elif op == "store-nopid":
+                    out = outcome(store.store_object, None, tmp_input(root, contents[step[1]], f"s{i}.bin"))
+                    want = model.store(None, contents[step[1]])
+                    if out[0] == "return":
+                        om_cache[step[1]] = out[1]
+                elif op == "tag":
+                    c = model.cid(contents[step[2]])
+                    out = outcome(store.tag_object, step[1], c)
+                    want = model.tag(step[1], c)
+                elif op == "delete":
+                    out = outcome(store.delete_object, step[1])
+                    want = model.delete(step[1])
+                elif op == "dii":
+                    c = model.cid(contents[step[1]])
+                    if c not in model.O:
+                        continue
+                    from hashstore.filehashstore import ObjectMetadata
+                    hd = {a: hashlib.new(a, contents[step[1]]).hexdigest()
+                          for a in ("md5", "sha1", "sha256", "sha384", "sha512")}
+                    om = ObjectMetadata("HashStoreNoPid", c, len(contents[step[1]]), hd)
+                    out = outcome(store.delete_if_invalid_object, om, hd["sha256"], "sha256",
+                                  len(contents[step[1]]) + 1)
+                    want = model.dii_wrong_size(c)
+                elif op == "smeta":
+                    doc = f"<doc {i}/>".encode()
+                    out = outcome(store.store_metadata, step[1], tmp_input(root, doc, f"m{i}.xml"), step[2])
+                    want = model.smeta(step[1], step[2], doc)
+                elif op == "dmeta":
+                    out = outcome(store.delete_metadata, step[1], step[2])
+                    want = model.dmeta(step[1], step[2])
+                got = _classify(out)
+                # states the API can create but the statements call inconsistent are skipped
+                if got != want and want in ("ok", "already-exists", "PidRefsDoesNotExist",
+                                            "NonMatchingObjSize"):
+                    if not (want == "ok" and got in ("RefsFileExistsButCidObjMissing",)):
+                        return True, (f"after {list(seq[:i])}: {step} ended with {got} "
+                                      f"({out[2] if out[0] == 'raise' else ''}); the property requires {want}")
+                bad = _compare(model, lay, ns, pids)
+                if bad:
+                    return True, f"after {list(seq[:i + 1])}: {bad}"
+        finally:
+            shutil.rmtree(root, ignore_errors=True)
+    return False, f"{tried} call sequences of length {n} agree with the reference model"
+
+
+ORACLES["model_sweep"] = o_model_sweep
 
 
 if __name__ == "__main__":
